@@ -1549,3 +1549,21 @@ M("c02-handler-input-from-first-page-only", "C02", "R6.handler-input-from-the-wh
 M("c02-benign-input-read-from-operations-map", "C02", "", "execution.py",
   "            raw_input_payload = execution_state.get_execution_input_payload()\n",
   "            raw_input_payload = next((o.execution_details.input_payload for o in list(execution_state.operations.values()) if o.execution_details), None)\n", expect="silent")
+M("c06-user-error-arm-does-not-ask", "C06", "R5.error-answer-consults-failure-state", "execution.py",
+  "                if (answer := answer_for_failed_checkpointing()) is not None:\n                    return answer\n                return result\n",
+  "                return result\n", desc="fix 3544342 reverted for the `except Exception` arm")
+M("c06-execution-error-arm-does-not-ask", "C06", "R5.error-answer-consults-failure-state", "execution.py",
+  "                logger.exception(\"Execution error. Must terminate without retry.\")\n                if (answer := answer_for_failed_checkpointing()) is not None:\n                    return answer\n",
+  "                logger.exception(\"Execution error. Must terminate without retry.\")\n", desc="fix 3544342 reverted for the `except ExecutionError` arm")
+M("c06-invocation-error-arm-does-not-ask", "C06", "R5.error-answer-consults-failure-state", "execution.py",
+  "                logger.exception(\"Invocation error. Must terminate.\")\n                if (answer := answer_for_failed_checkpointing()) is not None:\n                    return answer\n",
+  "                logger.exception(\"Invocation error. Must terminate.\")\n", desc="fix 3544342 reverted for the `except InvocationError` arm")
+M("c20-decoder-divides-as-float", "C20", "R4.millis-computed-exactly", "lambda_service.py",
+  "        return _UNIX_EPOCH + datetime.timedelta(milliseconds=ms)", "        return datetime.datetime.fromtimestamp(ms / 1000, tz=datetime.UTC)", desc="fix 7f3222b reverted")
+M("c20-benign-decoder-divmod", "C20", "", "lambda_service.py",
+  "        return _UNIX_EPOCH + datetime.timedelta(milliseconds=ms)",
+  "        seconds, millis = divmod(ms, 1000)\n        return _UNIX_EPOCH + datetime.timedelta(seconds=seconds, milliseconds=millis)", expect="silent")
+M("c15-tuple-decoded-through-generator", "C15", "R12.decoder-reaches-every-depth-the-encoder-accepts", "serdes.py",
+  "                return tuple([self._unwrap(v, self.dispatcher) for v in value])", "                return tuple(self._unwrap(v, self.dispatcher) for v in value)", desc="fix a811a5d reverted")
+M("c16-child-limit-counts-characters", "C16", "R1.limit-compared-with-bytes", "operation/child.py",
+  "            payload_size: int = len(serialized_result.encode(\"utf-8\", \"surrogatepass\"))", "            payload_size: int = len(serialized_result)", desc="fix 5bb33be reverted")
